@@ -63,7 +63,10 @@ def run_unit(unit, rng, ctx):
     kind, rot, m = geom.random_lattice(rng)
     T = int(rng.integers(6, 201))
     N = int(rng.integers(1, 7))
-    names = [str(x) for x in rng.choice(['Li', 'Na', 'S', 'O', 'Ag'], size=N)]
+    # a fifth of the cases contain hydrogen isotopes: D and T are species of symbol 'H' with their own masses
+    pool_ = ['Li', 'Na', 'S', 'O', 'Ag', 'H', 'D', 'T'] if unit['i'] % 5 == 2 else ['Li', 'Na', 'S', 'O', 'Ag']
+    names = [str(x) for x in rng.choice(pool_, size=N)]
+    ctx.count('cases_with_hydrogen_isotopes', any(n_ in ('D', 'T') for n_ in names))
     identical = unit['i'] % 3 == 0
     U = gen.random_walk(rng, T, 1 if identical else N, max_step=float(rng.choice([0.05, 0.2])))
     if identical:
@@ -113,7 +116,8 @@ def run_unit(unit, rng, ctx):
     final = np.linalg.norm(cart[-1], axis=1)
     ctx.check(close(amps.sum(), final.sum(), 1e-8), f'{what}: vibration amplitudes sum to {amps.sum()!r}, final distances sum to {final.sum()!r}', wit)
     if N > 1:
-        a0 = np.asarray(TrajectoryMetrics(traj.filter(names[0])).amplitudes()) if names.count(names[0]) == 1 else None
+        sym0 = 'H' if names[0] in ('H', 'D', 'T') else names[0]
+        a0 = np.asarray(TrajectoryMetrics(traj.filter(sym0)).amplitudes()) if sum(1 for n_ in names if ('H' if n_ in ('H', 'D', 'T') else n_) == sym0) == 1 else None
         if a0 is not None:
             ctx.check(close(a0.sum(), final[0], 1e-8), f'{what}: amplitudes of atom 0 sum to {a0.sum()!r}, its final distance is {final[0]!r}', wit)
     dist_truth = np.linalg.norm(cart, axis=2).T
